@@ -172,6 +172,17 @@ let run (line : string) : string =
     let (sok, sgot) = spec_fault_write enc (n_of_s k) in
     Printf.sprintf "%s got=%s | %s got=%s" (s_wres r) (hex_of_bytes s'.fs_got)
       (if sok then "done" else "io") (hex_of_bytes sgot)
+  | ["wt"; entry; k; chunk; z; _spec; m] ->
+      (* transient fault device: up to the fault it is the fail-stop sink; the writer must stop there *)
+    let p = wprog_of entry m in
+    let sink = { fs_budget = n_of_s k; fs_chunk = n_of_s chunk; fs_zero = (z = "1"); fs_got = [] } in
+    let (r, s') = run_x io_write_all (xprog_of entry m) sink in
+    let (r0, s0) = run_w io_write_all p sink in
+    if (r0, s0) <> (r, s') then failwith "run_x of the explicit program differs from run_w (C16_crate_writers_propagate)";
+    let enc = wprog_bytes p in
+    let (sok, sgot) = spec_fault_write enc (n_of_s k) in
+    Printf.sprintf "%s got=%s | %s got=%s" (s_wres r) (hex_of_bytes s'.fs_got)
+      (if sok then "done" else "io") (hex_of_bytes sgot)
   | ["ws"; entry; n; _spec; m] ->
     let (ln, layer) = match entry with
       | "eth" -> (n_of_int 14, l_ETH) | "sll" -> (n_of_int 16, l_SLL) | _ -> failwith "ws entry" in
